@@ -2,22 +2,24 @@
 PROPS_FILE = "Props_C08.v"
 RULE = ("random schedules over 1 root gate, up to 6 clones, 3 queue links and 3 direct links: subscribe / unsubscribe / "
         "suspend / resume / clone / drop / late Follow* replay / update / query / direct-update target dropped / metrics read / "
-        "terminate, with queue capacity 1-3 so that updates are in flight (blocked on a full queue) while the subscription set "
+        "abandoned connect (the connect()/query() future polled once and dropped before the gate ran, or after it answered, or "
+        "cancelled while the gate lags) / terminate, with queue capacity 1-3 so that updates are in flight (blocked on a full queue) while the subscription set "
         "changes; profile `fullq`: a clone that does not run process() collects 14-19 Follow* commands (its command queue holds 16), "
-        "then Terminate / drop, then the clones catch up. A case is non-trivial when at least one update blocked mid-snapshot, a "
-        "clone replayed commands late, or the root had to wait inside notify_clones (Z:blk / T:blk / c:blk), and at least two "
-        "deliveries happened or a Terminate was delivered late; distinct = distinct case text")
+        "then Terminate / drop, then the clones catch up; profile `abandon`: mostly direct links giving up on connect() and "
+        "connecting again while updates are published. A case is non-trivial when at least one update blocked mid-snapshot, a "
+        "clone replayed commands late, a connect was abandoned, or the root had to wait inside notify_clones (Z:blk / T:blk / "
+        "c:blk), and at least two deliveries happened or a Terminate was delivered late; distinct = distinct case text")
 TRUSTED_BASE = [
     "Coq 8.16.1 kernel (coqc; coqchk in thorough); no native_compute",
     "extraction with ExtrOcamlBasic only; OCaml driver oracle/{conv,eng_c08,oracle}.ml (incl. the macro-step scheduler: root drains its queue after every command, blocked publishers retry first-come first-served)",
-    "Rust harness /verif/harness (engine c08) over rotonda::comms (public API + Link::verif_resume hook, feature verif-hooks), paused-clock current_thread tokio runtime; c08-soak: multi_thread runtime, logical clock, judge written in Rust",
+    "Rust harness /verif/harness (engine c08) over rotonda::comms (public API + Link::verif_resume hook, feature verif-hooks), paused-clock current_thread tokio runtime; abandoned connects = the real connect()/query() future polled once by hand and dropped, or its task aborted; c08-soak: multi_thread runtime, logical clock, judge written in Rust",
     "modelled, not verified: src/comms.rs Gate/Link/DirectLink; each FrimMap operation and each handled command is one atomic step (C18)",
     "NOT modelled (exercised only): tokio scheduling, tokio::sync::mpsc internals (assumed: FIFO, bounded, fair hand-over of freed capacity, recv() = None when all senders are gone), Reconfigure",
 ]
 ASSUMPTIONS = [
     "each FrimMap operation (insert/remove/guard) is atomic (property C18); each command handled by Gate::process() is one step plus one step per send of notify_clones (a send into a full clone command queue, capacity 16, waits); the ROOT's own command queue (also 16) is unbounded in the model and kept short by the engines",
     "tokio mpsc channels are FIFO, bounded, and close when all senders are dropped; the scheduler is arbitrary (theorems quantify over all action lists)",
-    "links do not cancel connect() half-way; a dropped direct-update target is modelled per gate slot (action ARxDrop)",
+    "a connect()/query() future is dropped either while its Subscribe is still queued or after the gate put its answer into the oneshot (action AAbandon); a future dropped while the send of Subscribe itself waits for room in the root's command queue is not modelled (that queue is unbounded in the model); a dropped direct-update target is modelled per gate slot (action ARxDrop)",
     "GateCommand::Reconfigure (gate take-over on config reload) is not modelled",
 ]
 
@@ -54,30 +56,82 @@ def gen_fullq(rng):
             ops.append("F %d" % victim)
         if rng.chance(4):
             ops.append("t %d" % (1 + 2 * rng.below(NL // 2)))
+    if rng.chance(45):
+        # the gate lags (it waits for room in the victim's queue): a connect() stays in flight and is given up
+        free = [l for l in range(NL) if l not in conn]
+        if free:
+            l = rng.choice(free)
+            ops += ["c %d" % l, "a %d" % l]
+            if rng.chance(50):
+                ops += ["D %d" % victim, "c %d" % l, "u %d" % rng.below(nclones + 1)]
     ops.append(rng.weighted([("Z", 50), ("T", 30), ("X", 8), ("M", 6), ("k", 6)]))
     for _ in range(rng.range(2, 9)):
-        k = rng.weighted([("D", 28), ("F", 24), ("u", 18), ("x", 8), ("X", 8), ("q", 8), ("c", 3), ("Z", 3)])
+        k = rng.weighted([("D", 28), ("F", 24), ("u", 18), ("x", 8), ("X", 8), ("q", 8), ("c", 4), ("Z", 3), ("a", 4)])
         if k in ("D", "F", "x"):
             ops.append("%s %d" % (k, 1 + rng.below(nclones)))
         elif k == "u":
             ops.append("u %d" % rng.below(nclones + 1))
         elif k == "q":
             ops.append("q %d" % (2 * rng.below(NL // 2)))
-        elif k == "c":
-            ops.append("c %d" % rng.below(NL))
+        elif k in ("c", "a"):
+            ops.append("%s %d" % (k, rng.below(NL)))
         else:
             ops.append(k)
+    return ";".join(ops)
+
+
+def gen_abandon(rng):
+    """Links (mostly direct ones: the kind whose left-over slot still delivers) give up on connect() - before the gate ran
+    (a), after it answered (b) - and connect again, while the root gate and clones publish; sometimes a clone lags."""
+    cap = rng.weighted([(1, 30), (2, 40), (3, 30)])
+    ops = ["Q %d" % cap]
+    nclones = rng.weighted([(0, 45), (1, 35), (2, 20)])
+    ops += ["k"] * nclones
+    pairs = [("a", 18), ("b", 15), ("c", 17), ("d", 8), ("u", 22), ("q", 6), ("t", 3), ("F", 5), ("D", 3), ("s", 3), ("r", 2),
+             ("x", 1), ("M", 2), ("k", 1)]
+
+    def link():
+        return 1 + 2 * rng.below(NL // 2) if rng.chance(65) else 2 * rng.below(NL // 2)
+    for _ in range(rng.range(5, 28)):
+        k = rng.weighted(pairs)
+        if k in ("a", "b"):
+            l = link()
+            ops.append("%s %d" % (k, l))
+            if rng.chance(30):
+                ops.append("%s %d" % (rng.weighted([("a", 50), ("b", 50)]), l))
+            if rng.chance(70):
+                ops.append("c %d" % l)
+                ops.append("u %d" % rng.below(nclones + 1))
+        elif k in ("c", "d", "s", "r"):
+            ops.append("%s %d" % (k, link()))
+        elif k == "t":
+            ops.append("t %d" % (1 + 2 * rng.below(NL // 2)))
+        elif k == "q":
+            ops.append("q %d" % (2 * rng.below(NL // 2)))
+        elif k == "u":
+            ops.append("u %d" % rng.below(nclones + 1))
+        elif k == "k":
+            ops.append("k")
+            nclones = min(nclones + 1, 6)
+        elif k in ("x", "F", "D"):
+            ops.append("%s %d" % (k, 1 + rng.below(max(1, nclones))))
+        else:
+            ops.append(k)
+    ops.append("u %d" % rng.below(nclones + 1))
     return ";".join(ops)
 
 
 def gen_case(rng, profile):
     if profile == "fullq":
         return gen_fullq(rng)
+    if profile == "abandon":
+        return gen_abandon(rng)
     n = rng.range(6, 45)
     cap = rng.weighted([(1, 45), (2, 35), (3, 20)])
     ops = ["Q %d" % cap]
     nclones = 0
-    w = {"c": 16, "d": 8, "s": 5, "r": 4, "q": 14, "u": 26, "k": 5, "x": 3, "F": 7, "D": 5, "T": 1, "X": 1, "Z": 1, "t": 3, "M": 2}
+    w = {"c": 16, "d": 8, "s": 5, "r": 4, "q": 14, "u": 26, "k": 5, "x": 3, "F": 7, "D": 5, "T": 1, "X": 1, "Z": 1, "t": 3, "M": 2,
+         "a": 3, "b": 3}
     if profile == "churn":
         w.update({"c": 22, "d": 14, "F": 12, "k": 8, "u": 22})
     elif profile == "pressure":
@@ -103,7 +157,7 @@ def gen_case(rng, profile):
                     ops.append("D %d" % c)
                     lag[c] = 0
                 lag[c] += 1
-        if k in ("c", "d", "s", "r"):
+        if k in ("c", "d", "s", "r", "a", "b"):
             ops.append("%s %d" % (k, rng.below(NL)))
         elif k == "t":
             ops.append("t %d" % (1 + 2 * rng.below(NL // 2)))
@@ -127,10 +181,10 @@ def gen_case(rng, profile):
 
 
 def gen(rng, tier):
-    n = 2400 if tier == "quick" else 40000
-    profiles = ["mixed", "churn", "pressure", "term", "fullq"]
+    n = 2880 if tier == "quick" else 48000
+    profiles = ["mixed", "churn", "pressure", "term", "fullq", "abandon"]
     for i in range(n):
-        yield gen_case(rng, profiles[i % 5])
+        yield gen_case(rng, profiles[i % 6])
 
 
 def gen_metrics_case(rng):
@@ -139,11 +193,12 @@ def gen_metrics_case(rng):
     cap = rng.weighted([(1, 30), (2, 40), (3, 30)])
     ops = ["Q %d" % cap]
     nclones = 0
-    pairs = [("u", 30), ("M", 14), ("c", 14), ("d", 8), ("t", 10), ("s", 5), ("r", 3), ("q", 8), ("k", 4), ("x", 2), ("D", 2)]
+    pairs = [("u", 30), ("M", 14), ("c", 14), ("d", 8), ("t", 10), ("s", 5), ("r", 3), ("q", 8), ("k", 4), ("x", 2), ("D", 2),
+             ("a", 4), ("b", 4)]
     nl = rng.weighted([(2, 40), (4, 35), (6, 25)])
     for _ in range(rng.range(5, 30)):
         k = rng.weighted(pairs)
-        if k in ("c", "d", "s", "r"):
+        if k in ("c", "d", "s", "r", "a", "b"):
             ops.append("%s %d" % (k, rng.below(nl)))
         elif k == "t":
             ops.append("t %d" % (1 + 2 * rng.below(nl // 2)))
@@ -206,6 +261,9 @@ def corpus_metrics():
         "Q 1;c 0;u 0;u 0;d 0;M;q 0;M",
         # a suspended link does not count
         "c 0;s 0;u 0;M;r 0;u 0;M",
+        # a link that gave up on connect() - before the gate ran, after it answered - takes nothing: the update is dropped
+        "a 1;u 0;M;b 1;u 0;M;c 1;u 0;M",
+        "b 0;u 0;M;a 0;u 0;c 0;u 0;M;q 0",
     ]
 
 
@@ -220,7 +278,8 @@ def _deliveries(out):
 
 def nontrivial(case, out):
     late = "Z:blk" in out or "T:blk" in out or "c:blk" in out
-    return ("u:blk" in out or "F:ok" in out or "D:idle" in out or late) and (_deliveries(out) >= 2 or late)
+    gave_up = "a:ok" in out or "b:ok" in out or "a:cut" in out
+    return ("u:blk" in out or "F:ok" in out or "D:idle" in out or late or gave_up) and (_deliveries(out) >= 2 or late)
 
 
 def classify(case, out):
@@ -232,7 +291,8 @@ def classify(case, out):
                      ("d:ok", "disconnect"), ("s:ok", "suspend"), ("r:ok", "resume"), ("x:ok", "clone-dropped"),
                      ("T:ok", "terminate"), ("Z:ok", "terminate-gate-kept"), ("X:ok", "root-dropped"),
                      ("T:blk", "terminate-under-full-clone-queue"), ("Z:blk", "terminate-under-full-clone-queue"), ("c:blk", "connect-waits-for-root"),
-                     ("t:ok", "direct-target-dropped"), ("F:term", "clone-sees-terminate"), ("D:term", "clone-sees-terminate")):
+                     ("t:ok", "direct-target-dropped"), ("a:ok", "connect-abandoned-before-the-gate-ran"),
+                     ("b:ok", "connect-abandoned-after-the-answer"), ("a:cut", "connect-in-flight-cancelled"), ("F:term", "clone-sees-terminate"), ("D:term", "clone-sees-terminate")):
         if tag in toks[:n]:
             ks.append(key)
     d = _deliveries(out)
@@ -268,6 +328,20 @@ def corpus():
         "k;c 0;c 1;d 0;d 1;c 0;d 0;c 0;d 0;c 0;d 0;c 0;d 0;c 0;d 0;c 0;d 0;c 0;c 2;x 1;u 0;q 2",
         # the direct link's target is dropped while its slot is still registered (seeded C15-3)
         "c 1;u 0;t 1;u 0;M;d 1;c 1;u 0",
+        # abandoned connects. Early: the gate finds a Subscribe nobody waits for, inserts the slot, fails to answer and must
+        # remove it again (seeded C08-b1: it stays, the target gets every update twice after the next connect)
+        "a 1;c 1;u 0",
+        "a 0;c 0;u 0;q 0",
+        # late: the answer is in the oneshot when the future is dropped (Link::connect before the `fix:` lost the slot)
+        "b 1;c 1;u 0",
+        "b 1;u 0;c 1;u 0;t 1;u 0",
+        "b 0;c 0;u 0;q 0",
+        "k;a 1;b 1;c 1;u 0;u 1;F 1;u 1;D 1",
+        "a 1;a 1;b 1;b 1;c 1;u 0;d 1;u 0;M",
+        "Q 1;c 0;u 0;u 0;b 2;a 2;c 2;q 0;q 0;u 0;q 2;a 3;s 2;b 3;u 0",
+        # the gate lags (it waits inside notify_clones): the connect() in flight is cancelled, the gate gets to the Subscribe later
+        "k;c 0;c 1;d 0;d 1;c 0;d 0;c 0;d 0;c 0;d 0;c 0;d 0;c 0;d 0;c 0;d 0;c 0;c 3;a 3;D 1;c 3;u 0",
+        "k;c 0;c 1;d 0;d 1;c 0;d 0;c 0;d 0;c 0;d 0;c 0;d 0;c 0;d 0;c 0;d 0;c 0;c 3;a 3;c 5;a 5;x 1;c 3;c 5;u 0",
     ]
 
 
